@@ -56,6 +56,20 @@ def r13a(ctx, rep, cr):
                 for x in fs:
                     if x.startswith(TXW + 'TxRecoveryState.'):
                         arm_field[v] = x.split('.')[-1]
+    # arms that only select the list (`let bucket = match phase { Prepared => &mut state.prepared_txs, … }`) and push after the match
+    for v, tb in tg.items():
+        if v in arm_field:
+            continue
+        stop = {b_ for vv, b_ in tg.items() if b_ != tb}
+        R = A.reachable(f, [tb], cut_blocks=heads | {sw[0]})
+        Ro = A.reachable(f, list(stop), cut_blocks=heads | {sw[0], tb}) if stop else set()
+        pushes = any(f.bbs[b]['t'][0] == 'call' and f.bbs[b]['t'][1].endswith('::push') for b in R)
+        for b in sorted(R - Ro):
+            for st in f.bbs[b]['s']:
+                if st[1][0] == 'ref' and st[1][2]:
+                    for x in A.place_fields(st[1][1]):
+                        if x.startswith(TXW + 'TxRecoveryState.') and pushes:
+                            arm_field[v] = x.split('.')[-1]
     for v, where in sorted(logged.items()):
         if v in ('Committed', 'Aborted'):
             continue
@@ -75,7 +89,7 @@ def r13a(ctx, rep, cr):
             else:
                 rep.holds('R13a', g, 'list ' + fld, 'read')
     # vote handle mapping in the restore closure
-    hs = [h for h in A.with_closures(cr.fns, T.COORD + 'recover_from_wal') if h.name != T.COORD + 'recover_from_wal']
+    hs = [h for h in A.with_closures(cr.fns, T.COORD + 'recover_from_wal')]
     okh = False
     for h in hs:
         hd = A.Defs(h)
@@ -204,6 +218,7 @@ def run(ctx, rep):
     wal_rules.r02f(ctx, rep, ['TxWal'])
     wal_rules.r02g(ctx, rep, ['TxWal'])
     wal_rules.r02h(ctx, rep, ['TxWal'])
+    wal_rules.r02i(ctx, rep, ['TxWal'])
     c03.r03c(ctx, rep, cr)
     c03.r03d(ctx, rep, cr)
     c03.r03e(ctx, rep, cr)
